@@ -67,6 +67,12 @@ def _plan(draw, max_items):
             it[draw(st.sampled_from(["k", "r", "0", "", "k0x", "1"]))] = draw(st.sampled_from([None, 3, "u"]))
         right.append(it)
     plan = {"op": op, "by": by, "left": left, "right": right}
+    if op in ("left", "inner", "semi", "anti") and nl and all(a == b for a, b in by) and draw(st.integers(0, 5)) == 0:
+        # a list joined with itself (the very same object on both sides): an item's first match is the first item with
+        # its key values, which is not always the item itself
+        plan["self_join"] = True
+        plan["right"] = [dict(x) for x in left]
+        return plan
     if op != "aggregate" and draw(st.integers(0, 4)) == 0:
         plan["right_grouped"] = True          # the right-hand list went through group_by(<its join keys>) before
     if op != "aggregate" and nr and draw(st.integers(0, 3)) == 0:
@@ -165,6 +171,9 @@ def check(plan, ctx):
         plan = dict(plan, left=plan["left"] + plan["left"][:plan["alias"]])
         ctx.cls("aliased_left_items")
     R = di.ListOfDicts([dict(x) for x in plan["right"]])
+    if plan.get("self_join"):
+        R = L
+        ctx.cls("list_joined_with_itself")
     if plan.get("right_grouped"):
         R.group_by(*[b for _, b in plan["by"]])        # marks the list itself; a join still takes the FIRST match
         ctx.cls("right_list_was_grouped_by_the_join_keys")
@@ -193,7 +202,7 @@ def _check_join(plan, L, R, ctx, phase=""):
     out = ctx.call(f"{op}_join", getattr(L, f"{op}_join"), R, *_by_arg(plan))
     if not isinstance(out, di.ListOfDicts):
         raise Violation(f"{op}_join did not return a ListOfDicts")
-    if [dict(x) for x in R] != plan["right"]:
+    if R is not L and [dict(x) for x in R] != plan["right"]:          # (left/inner joins edit the receiver's items: C17)
         raise Violation(f"{op}_join changed its right-hand argument")
     if any(j is not None for j in match):
         ctx.cls("has_match")
